@@ -140,6 +140,79 @@ func (t *Tree) RunShard(shard, n int, body func(c *Chooser)) {
 	}
 }
 
+// RunShard2 is RunShard with the split one level further down.  Every shard runs the root
+// execution and every child of the root (each of them is counted by one shard only), and
+// the subtrees below the root's children - the grandchildren - are dealt round-robin to the
+// shards.  One heavy child of the root no longer makes one heavy shard.  The union over
+// i = 0..n-1 is exactly what Run explores.
+func (t *Tree) RunShard2(shard, n int, body func(c *Chooser)) {
+	if n <= 1 {
+		t.Run(body)
+		return
+	}
+	run := func(prefix []int, count bool) *Chooser {
+		c := &Chooser{prefix: prefix}
+		body(c)
+		if count {
+			t.Executions++
+			t.Points += int64(len(c.choices))
+		}
+		if len(c.choices) > t.MaxDepth {
+			t.MaxDepth = len(c.choices)
+		}
+		if c.err != nil {
+			t.Err = c.err
+		} else if len(c.choices) < len(prefix) {
+			t.Err = fmt.Errorf("explore: execution made %d choices, shorter than its prefix %d: harness is not deterministic", len(c.choices), len(prefix))
+		}
+		return c
+	}
+	root := run(nil, shard == 0)
+	if t.Err != nil {
+		return
+	}
+	k1, k2 := 0, 0
+	for i := 0; i < len(root.choices); i++ {
+		for alt := 1; alt < root.ns[i]; alt++ {
+			cost := root.costAt(i, alt)
+			if cost > t.Bound {
+				continue
+			}
+			if !t.Deadline.IsZero() && time.Now().After(t.Deadline) {
+				t.Capped = true
+				return
+			}
+			np := make([]int, i+1)
+			copy(np, root.choices[:i])
+			np[i] = alt
+			k1++
+			c := run(np, k1%n == shard)
+			if t.Err != nil {
+				return
+			}
+			for i2 := len(np); i2 < len(c.choices); i2++ {
+				for alt2 := 1; alt2 < c.ns[i2]; alt2++ {
+					cost2 := cost + c.costAt(i2, alt2)
+					if cost2 > t.Bound {
+						continue
+					}
+					k2++
+					if k2%n != shard {
+						continue
+					}
+					np2 := make([]int, i2+1)
+					copy(np2, c.choices[:i2])
+					np2[i2] = alt2
+					t.explore(np2, cost2, body)
+					if t.Err != nil {
+						return
+					}
+				}
+			}
+		}
+	}
+}
+
 // RootOnly reports that the current execution is the root execution of a shard other
 // than 0 (it only discovers the children; shard 0 judges it).
 func (t *Tree) RootOnly() bool { return t.rootOnly }
